@@ -58,7 +58,7 @@ func (f *frame) exec(in ssa.Instruction, g Term, st *State) error {
 		f.set(x, MkPtr(obj, IntLit(0)))
 	case *ssa.FieldAddr:
 		p := f.val(x.X)
-		f.safety("nil", g, Ne(PObj(p), IntLit(0)), x)
+		f.nilCheck(x.X, p, g, x)
 		su := x.X.Type().Underlying().(*types.Pointer).Elem().Underlying().(*types.Struct)
 		f.set(x, MkPtr(PObj(p), Add(POff(p), IntLit(tt.fieldOff(su, x.Field)))))
 	case *ssa.Field:
@@ -74,7 +74,7 @@ func (f *frame) exec(in ssa.Instruction, g Term, st *State) error {
 		case *types.Pointer:
 			p := f.val(x.X)
 			at := u.Elem().Underlying().(*types.Array)
-			f.safety("nil", g, Ne(PObj(p), IntLit(0)), x)
+			f.nilCheck(x.X, p, g, x)
 			f.safety("index", g, And(Le(IntLit(0), idx), Lt(idx, IntLit(at.Len()))), x)
 			c := tt.cells(at.Elem())
 			f.set(x, MkPtr(PObj(p), Add(POff(p), Mul(idx, IntLit(c)))))
@@ -91,7 +91,7 @@ func (f *frame) exec(in ssa.Instruction, g Term, st *State) error {
 			s := f.val(x.X)
 			f.safety("index", g, And(Le(IntLit(0), idx), Lt(idx, Term{app("slen_", s), SInt})), x)
 			f.set(x, Term{app("sbyte", s, idx), SInt})
-			vc.assume(True, And(Le(IntLit(0), f.vals[x]), Le(f.vals[x], IntLit(255))))
+			vc.assume(g, And(Le(IntLit(0), f.vals[x]), Le(f.vals[x], IntLit(255))))
 		default:
 			return fmt.Errorf("Index on %s", x.X.Type())
 		}
@@ -101,7 +101,7 @@ func (f *frame) exec(in ssa.Instruction, g Term, st *State) error {
 		return f.execBinOp(x, g, st)
 	case *ssa.Store:
 		p := f.val(x.Addr)
-		f.safety("nil", g, Ne(PObj(p), IntLit(0)), x)
+		f.nilCheck(x.Addr, p, g, x)
 		v := f.val(x.Val)
 		vc.store(st, x.Val.Type(), PObj(p), POff(p), v)
 	case *ssa.Slice:
@@ -152,7 +152,7 @@ func (f *frame) exec(in ssa.Instruction, g Term, st *State) error {
 		// closure value: opaque id; static calls resolve through the SSA value
 		t := vc.declare(f.name(x), SFn)
 		f.vals[x] = t
-		vc.assume(True, Gt(t, IntLit(0)))
+		vc.assume(g, Gt(t, IntLit(0)))
 	case *ssa.Range:
 		ri := &rangeInfo{}
 		if mt, ok := x.X.Type().Underlying().(*types.Map); ok {
@@ -254,7 +254,7 @@ func (f *frame) execLookup(x *ssa.Lookup, g Term, st *State) error {
 		raw := vc.mapGet(st, u, m, k)
 		raw.Sort = tt.sort(u.Elem())
 		v := vc.define(f.pfx+"mv", Ite(has, raw, tt.zero(u.Elem())))
-		vc.assume(True, tt.wf(u.Elem(), v, st.Alloc))
+		vc.assume(g, tt.wf(u.Elem(), v, st.Alloc))
 		if x.CommaOk {
 			f.tup[x] = []Term{v, has}
 		} else {
@@ -265,7 +265,7 @@ func (f *frame) execLookup(x *ssa.Lookup, g Term, st *State) error {
 		idx := f.val(x.Index)
 		f.safety("index", g, And(Le(IntLit(0), idx), Lt(idx, Term{app("slen_", s), SInt})), x)
 		f.set(x, Term{app("sbyte", s, idx), SInt})
-		vc.assume(True, And(Le(IntLit(0), f.vals[x]), Le(f.vals[x], IntLit(255))))
+		vc.assume(g, And(Le(IntLit(0), f.vals[x]), Le(f.vals[x], IntLit(255))))
 	default:
 		return fmt.Errorf("Lookup on %s", x.X.Type())
 	}
@@ -282,10 +282,10 @@ func (f *frame) execNext(x *ssa.Next, g Term, st *State) error {
 		ok := vc.declare(f.pfx+"nextok", SBool)
 		k := vc.declare(f.pfx+"nextk", SInt)
 		v := vc.declare(f.pfx+"nextv", SInt)
-		vc.assume(True, And(Le(IntLit(0), k), Le(IntLit(0), v), Le(v, IntLit(0x10ffff))))
+		vc.assume(g, And(Le(IntLit(0), k), Le(IntLit(0), v), Le(v, IntLit(0x10ffff))))
 		if r, isR := x.Iter.(*ssa.Range); isR {
 			s := f.val(r.X)
-			vc.assume(True, Implies(ok, Lt(k, Term{app("slen_", s), SInt})))
+			vc.assume(g, Implies(ok, Lt(k, Term{app("slen_", s), SInt})))
 		}
 		f.tup[x] = []Term{ok, k, v}
 		return nil
@@ -293,13 +293,13 @@ func (f *frame) execNext(x *ssa.Next, g Term, st *State) error {
 	mt := ri.mt
 	ok := vc.declare(f.pfx+"nextok", SBool)
 	k := vc.declare(f.pfx+"nextk", tt.sort(mt.Key()))
-	vc.assume(True, tt.wf(mt.Key(), k, st.Alloc))
+	vc.assume(g, tt.wf(mt.Key(), k, st.Alloc))
 	// a produced key is present in the map at this moment
-	vc.assume(True, Implies(ok, vc.mapHas(st, mt, ri.m, k)))
+	vc.assume(g, Implies(ok, vc.mapHas(st, mt, ri.m, k)))
 	raw := vc.mapGet(st, mt, ri.m, k)
 	raw.Sort = tt.sort(mt.Elem())
 	v := vc.define(f.pfx+"nextv", raw)
-	vc.assume(True, Implies(ok, tt.wf(mt.Elem(), v, st.Alloc)))
+	vc.assume(g, Implies(ok, tt.wf(mt.Elem(), v, st.Alloc)))
 	f.tup[x] = []Term{ok, k, v}
 	return nil
 }
@@ -316,10 +316,10 @@ func (f *frame) execUnOp(x *ssa.UnOp, g Term, st *State) error {
 			}
 		}
 		p := f.val(x.X)
-		f.safety("nil", g, Ne(PObj(p), IntLit(0)), x)
+		f.nilCheck(x.X, p, g, x)
 		v := vc.load(st, x.Type(), PObj(p), POff(p))
 		f.set(x, v)
-		vc.assume(True, tt.wf(x.Type(), f.vals[x], st.Alloc))
+		vc.assume(g, tt.wf(x.Type(), f.vals[x], st.Alloc))
 	case token.SUB:
 		b := basicOf(x.Type())
 		if b == nil || !isIntKind(b) {
@@ -405,7 +405,7 @@ func (f *frame) execBinOp(x *ssa.BinOp, g Term, st *State) error {
 		if x.Op == token.ADD {
 			r := Term{app("sconcat", a, b), SStr}
 			f.set(x, r)
-			vc.assume(True, Eq(Term{app("slen_", f.vals[x]), SInt}, Add(Term{app("slen_", a), SInt}, Term{app("slen_", b), SInt})))
+			vc.assume(g, Eq(Term{app("slen_", f.vals[x]), SInt}, Add(Term{app("slen_", a), SInt}, Term{app("slen_", b), SInt})))
 			return nil
 		}
 		return fmt.Errorf("string op %s", x.Op)
@@ -489,18 +489,18 @@ func (f *frame) execBinOp(x *ssa.BinOp, g Term, st *State) error {
 	case token.AND, token.OR, token.XOR, token.AND_NOT:
 		f.set(x, f.bitop(x.Op, rt, a, b))
 		r := f.vals[x]
-		vc.assume(True, And(Le(BigLit(lo), r), Le(r, BigLit(hi))))
+		vc.assume(g, And(Le(BigLit(lo), r), Le(r, BigLit(hi))))
 		if isUnsigned(rt) || true {
 			nonneg := And(Ge(a, IntLit(0)), Ge(b, IntLit(0)))
 			switch x.Op {
 			case token.AND:
-				vc.assume(True, Implies(nonneg, And(Ge(r, IntLit(0)), Le(r, a), Le(r, b))))
+				vc.assume(g, Implies(nonneg, And(Ge(r, IntLit(0)), Le(r, a), Le(r, b))))
 			case token.OR:
-				vc.assume(True, Implies(nonneg, And(Ge(r, a), Ge(r, b), Le(r, Add(a, b)))))
+				vc.assume(g, Implies(nonneg, And(Ge(r, a), Ge(r, b), Le(r, Add(a, b)))))
 			case token.XOR:
-				vc.assume(True, Implies(nonneg, And(Ge(r, IntLit(0)), Le(r, Add(a, b)))))
+				vc.assume(g, Implies(nonneg, And(Ge(r, IntLit(0)), Le(r, Add(a, b)))))
 			case token.AND_NOT:
-				vc.assume(True, Implies(nonneg, And(Ge(r, IntLit(0)), Le(r, a))))
+				vc.assume(g, Implies(nonneg, And(Ge(r, IntLit(0)), Le(r, a))))
 			}
 		}
 	default:
@@ -640,7 +640,7 @@ func (f *frame) execSlice(x *ssa.Slice, g Term, st *State) error {
 	case *types.Pointer:
 		at := u.Elem().Underlying().(*types.Array)
 		p := f.val(x.X)
-		f.safety("nil", g, Ne(PObj(p), IntLit(0)), x)
+		f.nilCheck(x.X, p, g, x)
 		n := IntLit(at.Len())
 		lo := optVal(x.Low, IntLit(0))
 		hi := optVal(x.High, n)
@@ -655,7 +655,7 @@ func (f *frame) execSlice(x *ssa.Slice, g Term, st *State) error {
 		hi := optVal(x.High, ln)
 		f.safety("slice", g, And(Le(IntLit(0), lo), Le(lo, hi), Le(hi, ln)), x)
 		f.set(x, Term{app("ssub", s, lo, hi), SStr})
-		vc.assume(True, Eq(Term{app("slen_", f.vals[x]), SInt}, Sub(hi, lo)))
+		vc.assume(g, Eq(Term{app("slen_", f.vals[x]), SInt}, Sub(hi, lo)))
 	default:
 		return fmt.Errorf("Slice on %s", x.X.Type())
 	}
@@ -690,12 +690,12 @@ func (f *frame) execTypeAssert(x *ssa.TypeAssert, g Term, st *State) error {
 	if x.CommaOk {
 		z := tt.zero(x.AssertedType)
 		r := vc.define(f.pfx+"ta", Ite(ok, res, z))
-		vc.assume(True, tt.wf(x.AssertedType, r, st.Alloc))
+		vc.assume(g, tt.wf(x.AssertedType, r, st.Alloc))
 		f.tup[x] = []Term{r, ok}
 	} else {
 		f.safety("assert", g, ok, x)
 		f.set(x, res)
-		vc.assume(True, tt.wf(x.AssertedType, f.vals[x], st.Alloc))
+		vc.assume(g, tt.wf(x.AssertedType, f.vals[x], st.Alloc))
 	}
 	return nil
 }
@@ -720,7 +720,7 @@ func (f *frame) execConvert(x *ssa.Convert, g Term, st *State) error {
 		if _, ok := from.Underlying().(*types.Slice); ok {
 			s := vc.declare(f.name(x), SStr)
 			f.vals[x] = s
-			vc.assume(True, Eq(Term{app("slen_", s), SInt}, SLen(v)))
+			vc.assume(g, Eq(Term{app("slen_", s), SInt}, SLen(v)))
 		} else {
 			f.setFresh(x, g, st.Alloc)
 		}
@@ -743,4 +743,14 @@ func (f *frame) execConvert(x *ssa.Convert, g Term, st *State) error {
 		f.setFresh(x, g, st.Alloc)
 	}
 	return nil
+}
+
+// nilCheck emits a nil-dereference obligation unless the pointer is non-nil by construction
+// (address of a local, a global, or a field/element address whose base was already checked).
+func (f *frame) nilCheck(v ssa.Value, p Term, g Term, in ssa.Instruction) {
+	switch v.(type) {
+	case *ssa.Alloc, *ssa.Global, *ssa.FieldAddr, *ssa.IndexAddr:
+		return
+	}
+	f.safety("nil", g, Ne(PObj(p), IntLit(0)), in)
 }
